@@ -320,6 +320,23 @@ def run_check(mod, tier, seed, replay=None):
             if not re.search(r"\b%s\b" % re.escape(th), open(os.path.join(COQ, "theories", mod.PROP_FILE)).read()):
                 broken.append("theorem %s missing from %s" % (th, mod.PROP_FILE))
 
+    # 1b. thorough tier: re-check the compiled property file and everything it depends on with the
+    # independent checker, and take its list of axioms
+    coqchk_axioms = None
+    if tier == "thorough" and proof_ok and assum_ok and not replay:
+        modname = "BV." + mod.PROP_FILE[:-2].replace("/", ".")
+        rc, out = sh(["timeout", "2400", "coqchk", "-o", "-silent", "-Q", "theories", "BV", "-Q", "gen", "BVgen", modname], cwd=COQ)
+        if rc != 0:
+            broken.append("coqchk rejected %s: %s" % (modname, out[-400:]))
+        else:
+            m = re.search(r"\* Axioms:(.*?)\n\s*\n\* ", out, re.S)
+            txt = m.group(1).strip() if m else "?"
+            coqchk_axioms = [] if txt == "<none>" else [l.strip() for l in txt.splitlines() if l.strip()]
+            allowed = set(getattr(mod, "ALLOWED_AXIOMS", []))
+            for ax in coqchk_axioms:
+                if ax.split(".")[-1] not in allowed and ax not in allowed:
+                    broken.append("coqchk reports a non-allow-listed axiom " + ax)
+
     # 2. cases
     rng = random.Random(seed)
     if replay:
@@ -424,6 +441,7 @@ def run_check(mod, tier, seed, replay=None):
                              + ["axiom: " + a for a in trusted]
                              + (["Print Assumptions: Closed under the global context"] if (assum_ok and not trusted) else [])),
             "theorems": mod.THEOREMS,
+            "coqchk_axioms": coqchk_axioms,
             "dependency_cone": cone,
             "evaluations": len(cases),
             "traces_validated_against_impl": len(terms) - len(bad) if corr_ok else 0,
@@ -442,8 +460,9 @@ def run_check(mod, tier, seed, replay=None):
         "violations": len(violations),
     }
     if not replay:
-        os.makedirs(os.path.join(VERIF, "evidence"), exist_ok=True)
-        json.dump(ev, open(os.path.join(VERIF, "evidence", pid + ".json"), "w"), indent=1, default=str)
+        evdir = os.environ.get("VERIF_EVIDENCE_DIR") or os.path.join(VERIF, "evidence")   # seed tests write elsewhere
+        os.makedirs(evdir, exist_ok=True)
+        json.dump(ev, open(os.path.join(evdir, pid + ".json"), "w"), indent=1, default=str)
     for path, suffix in violations:
         print("VIOLATION property=%s replay=%s%s" % (pid, path, suffix))
     if not violations:
